@@ -138,6 +138,41 @@ class Tr(object):
             else:
                 return out + '(%d : Int)' % k + ')' * closes
 
+    def final(self, stmts, env, var):
+        """symbolic value of `var` when the function is left (by `return` or by falling off the end);
+        `with` blocks are transparent"""
+        if not stmts:
+            return self.atom(var, env)
+        s, rest = stmts[0], stmts[1:]
+        # ghost counters: a statement that makes a call named in the site's `ghost` table bumps that counter
+        if isinstance(s, (ast.Expr, ast.Assign)):
+            for text, gvar in getattr(self, 'ghost', {}).items():
+                if text in ast.unparse(s):
+                    env = dict(env)
+                    env[gvar] = '(%s + (1 : Int))' % self.atom(gvar, env)
+        if isinstance(s, ast.Expr):
+            return self.final(rest, env, var)
+        if isinstance(s, ast.Return):
+            return self.atom(var, env)
+        if isinstance(s, ast.With):
+            return self.final(list(s.body) + rest, env, var)
+        if isinstance(s, ast.Assign) and len(s.targets) == 1:
+            env2 = dict(env)
+            try:
+                env2[dotted(s.targets[0])] = self.ex(s.value, env)
+            except Untranslatable:
+                env2[dotted(s.targets[0])] = POISON
+            return self.final(rest, env2, var)
+        if isinstance(s, ast.AugAssign) and type(s.op) in BIN:
+            name = dotted(s.target)
+            env2 = dict(env)
+            env2[name] = '(%s %s %s)' % (self.atom(name, env), BIN[type(s.op)], self.ex(s.value, env))
+            return self.final(rest, env2, var)
+        if isinstance(s, ast.If):
+            return '(if %s then %s else %s)' % (self.cond(s.test, env), self.final(list(s.body) + rest, env, var),
+                                                self.final(list(s.orelse or []) + rest, env, var))
+        raise Untranslatable(ast.dump(s)[:120])
+
     def after(self, stmts, env, var):
         """symbolic value of `var` after executing stmts (no returns; if/else merged)"""
         for s in stmts:
@@ -230,6 +265,7 @@ def translate(site, repo):
     tree = ast.parse(src)
     func = find_func(tree, site['func'])
     tr = Tr(site['varmap'])
+    tr.ghost = site.get('ghost', {})
     kind = site['kind']
     if kind == 'return-bool':
         body, ty = tr.body(func.body, {}, True), 'Bool'
@@ -248,6 +284,8 @@ def translate(site, repo):
         if node is None:
             raise Untranslatable('marker %r not found' % site['marker'])
         body, ty = tr.branch(node), 'Int'
+    elif kind == 'final':
+        body, ty = tr.final(list(func.body), {}, site['var']), 'Int'
     elif kind == 'after':
         body, ty = tr.after(stmts_matching(func, site['marker']), {}, site['var']), 'Int'
     else:
